@@ -453,12 +453,36 @@ _reg(Recipe("three_augment", "kappadata.transforms.kd_three_augment:KDThreeAugme
 
 
 # ---- rand augment (PIL, RGB)
+_N_OPS = []
+
+
+def rand_augment_op_count():
+    """size of KDRandAugment's op pool (read from an instance; the global NumPy state is restored)"""
+    if not _N_OPS:
+        st = np.random.get_state()
+        try:
+            t = _cls("kappadata.transforms.kd_rand_augment:KDRandAugment")(num_ops=1, magnitude=9, fill_color=(0, 0, 0), interpolation="bilinear")
+            _N_OPS.append(len(t.ops))
+        finally:
+            np.random.set_state(st)
+    return _N_OPS[0]
+
+
+# boundary configurations that every run drives at least once per input kind (overrides on top of sampled params)
+BOUNDARY_PARAMS = {
+    "rand_augment": lambda: [{"num_ops": rand_augment_op_count(), "apply_op_p": 1.0}, {"num_ops": 1}, {"num_ops": rand_augment_op_count()}],
+    "rand_augment_custom": lambda: [{"num_ops": rand_augment_op_count(), "apply_op_p": 1.0}, {"num_ops": 1}, {"num_ops": rand_augment_op_count()}],
+    "threshold": lambda: [{"threshold": 0.5, "threshold_std": 0.3, "threshold_min": 0.05, "threshold_max": 0.95}],
+    "random_threshold": lambda: [{"p": 1.0, "threshold": 0.5, "threshold_std": 0.3, "threshold_min": 0.05, "threshold_max": 0.95}],
+}
+
+
 def _s_rand_augment(custom):
     def f(r, T):
         if not _only(T, ("pil",), (3,)):
             return None
         d = {
-            "num_ops": r.choice([1, 2, 2, 3, 5]),
+            "num_ops": r.choice([1, 2, 2, 3, 5, rand_augment_op_count()]),
             "magnitude": r.choice([9, 5, 10, 1]),
             "fill_color": r.choice([[124, 116, 104], [0, 0, 0], [128, 128, 128]]),
             "interpolation": r.choice(["bicubic", "bilinear", "random", "nearest"]),
